@@ -358,10 +358,6 @@ def Ip.accepts (k : RouteIp) (q : Req) : Bool :=
   | none => false
   | some a => k.matchIp a
 
-/-- The inner loop of `IpMatcher::match_request`: push the routes whose id is not yet reported. -/
-def pushNew (routes : List Route) (new : List Route) : List Route :=
-  new.foldl (fun acc r => if acc.any (fun x => x.id == r.id) then acc else acc ++ [r]) routes
-
 /-- `IpMatcher::match_request`. -/
 def Ip.matchReq (I : MOps) (s : LState I RouteIp) (q : Req) : List Route :=
   let routes := I.matchReq s.any q
